@@ -1,6 +1,7 @@
 import Lean.Data.Json
 import UcantoModel.Model.Cbor
 import UcantoModel.Model.Wire
+import UcantoModel.Model.StructRd
 /-! # reading the harness's JSON form of an IPLD value into `Cbor.CVal` (driver glue, not verified) -/
 namespace CborJson
 open Lean Cbor
@@ -143,3 +144,32 @@ def itemBytes (j : Json) : Except String String := do
   | k => .error s!"kind {k}"
 
 end WireJson
+
+namespace StructRdJson
+open Lean Cbor StructRd
+
+def asciiName (b : Bytes) : String := String.ofList (b.map fun c => Char.ofNat c.toNat)
+
+def schemaOf : String → Option (List Field)
+  | "att" => some attestation
+  | "lib" => some [⟨"size".toUTF8.toList, .int, true⟩, ⟨"label".toUTF8.toList, .str, true⟩]
+  | "req" => some [⟨"name".toUTF8.toList, .str, false⟩, ⟨"count".toUTF8.toList, .int, false⟩,
+      ⟨"flag".toUTF8.toList, .bool, true⟩, ⟨"data".toUTF8.toList, .bytes, true⟩]
+  | _ => none
+
+def leaf : CVal → String
+  | .int i => s!"i{i}"
+  | .text s => s!"s{Bytes.toHex s}"
+  | .bool b => if b then "t" else "f"
+  | .bytes b => s!"b{Bytes.toHex b}"
+  | .link l => s!"l{Bytes.toHex l}"
+  | _ => "?"
+
+def run (schema valueJson : String) : Except String String := do
+  let fs ← (schemaOf schema).elim (.error s!"schema {schema}") .ok
+  let v ← CborJson.parse (← Json.parse valueJson)
+  match read fs v with
+  | none => pure "fail"
+  | some out => pure ("|".intercalate ("ok" :: out.map fun kv => s!"{asciiName kv.1}={leaf kv.2}"))
+
+end StructRdJson
